@@ -35,6 +35,13 @@ class C20D(C20A):
     w: int = 0
 
 
+class C20Lookup(KeyError):
+    pass
+
+
+# what a handler may raise: dispatch lets it through unchanged (DispatchError means "no handler", nothing else)
+RAISES = [KeyError, ValueError, C20Lookup, LookupError, AttributeError, TypeError, RuntimeError]
+
 MSG = {"A": C20A, "B": C20B, "C": C20C, "D": C20D}
 UNKNOWN = "?"
 
@@ -49,6 +56,8 @@ def build(kind):
         def handler_s(_n, cls):
             def h(self, client, seqnum, msg):
                 log.append(("%s.%s" % (self.rid, _n), (client, seqnum, msg)))
+                if msg.v < 0:
+                    raise RAISES[(-msg.v) % len(RAISES)]("handler fails (injected)")
             h.__annotations__ = {"msg": cls}
             h.__name__ = _n
             return server_event(h)
@@ -56,6 +65,8 @@ def build(kind):
         def handler_c(_n, cls):
             def h(self, seqnum, msg):
                 log.append(("%s.%s" % (self.rid, _n), (seqnum, msg)))
+                if msg.v < 0:
+                    raise RAISES[(-msg.v) % len(RAISES)]("handler fails (injected)")
             h.__annotations__ = {"msg": cls}
             h.__name__ = _n
             return client_event(h)
@@ -155,6 +166,23 @@ class Run(object):
             return ("anomaly", "dispatch invoked %d handlers" % len(ran))
         if len(ran[0][1]) != len(args) or not all(a is b for a, b in zip(ran[0][1], args)):
             return ("anomaly", "handler received different argument objects")
+        # the registered handler fails: its exception comes out of dispatch() as it is
+        if ran[0][0].startswith("R") and not ran[0][0].startswith("R2"):
+            for k in range(1, len(RAISES) + 1):
+                del self.log[:]
+                bad = MSG[letter](v=-k)
+                a2 = (token_c, token_s, bad) if self.kind == "server" else (token_s, bad)
+                want = RAISES[k % len(RAISES)]
+                try:
+                    self.disp.dispatch(*a2)
+                    return ("anomaly", "dispatch swallows an exception raised by the handler (%s)" % want.__name__)
+                except DispatchError:
+                    return ("anomaly", "dispatch raises DispatchError although a handler is registered and was called (the handler raised %s)" % want.__name__)
+                except Exception as e:
+                    if type(e) is not want:
+                        return ("anomaly", "dispatch turns the handler's %s into %s" % (want.__name__, type(e).__name__))
+                if len(self.log) != 1:
+                    return ("anomaly", "a failing handler was invoked %d times" % len(self.log))
         return ran[0][0]
 
     def observe(self):
